@@ -381,7 +381,7 @@ def _twice(n, other_swarm):
     def k(c):
         c.model_threads(SWM)
         swarm, uris, scfs = new_swarm(c, n)
-        first, firstmembers = swarm, scfs
+        first, firstmembers = swarm, scfs       # the earlier call: on this swarm, or on another one-member swarm
         if other_swarm:
             scfx = c.ext('scfX')
             c.call(SWM + ':Swarm', c.list([URIS[2]]), c.ext('factory1', returns={'construct': lambda *_a: scfx}))
@@ -512,8 +512,7 @@ def context_manager(c):
     c.model_threads(SWM)
     swarm, uris, scfs = new_swarm(c, 2, members=link_members(c, 2))
     c.call((swarm, '__enter__'))
-    ensure_open_outcome_enter = c.get('raised') is None
-    if ensure_open_outcome_enter:
+    if c.get('raised') is None:
         c.ensure('enter-yields-the-swarm', 'result is swarm')
         c.ensure('enter-opens', 'swarm._is_open is True and len(sent("scf0.open_link")) == 1 and len(sent("scf1.open_link")) == 1 and len(calls("scf")) == 2')
         c.ensure('only-when-nothing-failed', 'not %s' % any_fail(2, 'open'))
